@@ -130,6 +130,11 @@ func Delete%[1]ssByIDs(tx DB, ids ...%[2]s) ([]%[2]s, error) {
 	// generate "join like" queries
 	for _, key := range ta.ForeignKeys() {
 		fieldName := key.F.Field.Name()
+		if fieldName == "ID" && key.F.Field == ta.Columns[primaryIndex].Field.Field {
+			// the primary key is also a foreign key (table sharing the key of its parent) :
+			// IDs() and Delete...ByIDs are already defined for the primary key
+			continue
+		}
 		columnName := sqlColumnName(key.F)
 		varName := gen.ToLowerFirst(fieldName)
 
